@@ -377,9 +377,11 @@ Definition dispatch (rewrite_stash : bool) (st : side_state) (fi : firing) : lis
   let e := h_env fi in
   match h_name fi with
   | HN_pre_commit =>
+      (* both arms call maybe_capture_cherry_pick_pre_commit_state (GenModes reads which do): the cherry-pick arm records
+         (source, base); the ordinary arm is the only place a left-over cherry_pick_hook_state file is cleared *)
       if e_rb e then ([], st)
-      else if cp_in_progress e then ([], capture_cp st e)
-      else ([EPreCommitCheckpoint], capture_cp st e)
+      else if cp_in_progress e then ([], if precommit_cp_arm_captures then capture_cp st e else st)
+      else ([EPreCommitCheckpoint], if precommit_ordinary_arm_captures then capture_cp st e else st)
   | HN_prepare_commit_msg =>
       if e_rb e then ([], st) else ([], capture_cp st e)
   | HN_post_commit =>
@@ -562,6 +564,7 @@ Record outcome_facts := mkFacts {
   f_path_pending : bool;          (* the working log holds attribution for the checked-out path *)
   f_detached : bool;              (* HEAD is detached when the command starts: a move of HEAD updates no refs/heads/... *)
   f_autostash_va : bool;          (* pull --rebase --autostash with pending attribution: the wrapper captured a VirtualAttributions *)
+  f_msg_aborted : bool;           (* a failing git commit got as far as the message hooks (empty message, commit-msg hook, editor) *)
   f_upstream_touches_pending : bool (* a file with pending attribution changes without a checkpoint before it is committed
                                        (the pulled commits touch it, or a person edits it afterwards) *)
 }.
@@ -809,6 +812,8 @@ Definition fires_commit (amend : bool) (f : outcome_facts) : list firing :=
       mkFiring HN_post_commit ANone after] ++
      (if amend then [mkFiring HN_post_rewrite (APostRewrite false true [(zero_or (f_head f), zero_or (f_head_after f))]) after]
       else [])
+   else if f_msg_aborted f then
+     [mkFiring HN_prepare_commit_msg ANone before; mkFiring HN_commit_msg ANone before]
    else []).
 
 Definition tail_end (pull : bool) (f : outcome_facts) : list firing :=
